@@ -540,9 +540,15 @@ def db_lookup(chk, prog):
     def _param_ty(body, y, want):
         return y[0] == "param" and want in (body.local_ty(y[1]) or "")
 
+    def defaulted(d):
+        # a stand-in value for a user without a session (`.unwrap_or_default()`, `.map_or("", ..)`, `unwrap_or("")`): the empty (or any fixed)
+        # token would then identify every user who is not logged in
+        return desc_contains(d, lambda y: (y[0] == "call" and core.re.search(r"::(unwrap_or|unwrap_or_default|unwrap_or_else|map_or|map_or_else|or|or_else)$|Default>?::default$", y[1]) is not None) or
+                             (y[0] == "multi" and any(isinstance(a, tuple) and a[0] == "lit" for a in y[1])))
+
     def stored_token(body, d):
         # <entry>.session.<..>.token, or <a Session reached from the entry>.token inside a nested closure / helper
-        return not has_upvar(d) and desc_contains(d, lambda y: y[0] == "field" and y[2] == si["token"] and (
+        return not has_upvar(d) and not defaulted(d) and desc_contains(d, lambda y: y[0] == "field" and y[2] == si["token"] and (
             desc_contains(y[1], lambda z: z[0] == "field" and z[2] == ui["session"]) or _param_ty(body, y[1], "session::Session")))
 
     def stored_uid(body, d):
